@@ -191,6 +191,7 @@ Notation LitsC := (LitsC C).
 
 Variables (r : nat) (W : list Z).
 Hypothesis Hr : (r < length C)%nat.
+Hypothesis HRr : Live.Reach C r.
 Hypothesis HW : incl W (V r).
 
 Lemma cover_sorted_step S I : SampOK r W S -> LitsC I -> (forall l, In l I -> In (Z.abs l) W) ->
@@ -211,7 +212,7 @@ Proof.
       destruct HS as [H1 H2 H3 H4]. pose proof H3 as H3'. unfold s_iter in H3'. apply Forall_app in H3'.
       destruct H3' as [Hcomp Hpart].
       destruct (cover d r (s_part S) I 0) as [P' res] eqn:Ec.
-      destruct (cover_spec C n HQ r W I Hr HW HI HIW (s_part S) 0%nat P' res Hpart Ec) as [G1 [G2 [G3 [_ G5]]]].
+      destruct (cover_spec C n HQ r W I Hr HRr HW HI HIW (s_part S) 0%nat P' res Hpart Ec) as [G1 [G2 [G3 [_ G5]]]].
       assert (Hall : Forall (CfgOK r W) (s_comp S ++ P')) by (apply Forall_app; now split).
       assert (Hmono : forall (S' : sample), (forall x, In x (s_comp S ++ P') -> In x (s_iter S')) ->
                       forall J, Covers S J -> Covers S' J).
